@@ -180,7 +180,7 @@ def to_text(nodes, order):
         elif nd["kind"] == "Sink":
             lines.append("%s = Sink(L = %s)" % (nd["name"], _fmt(nd["L"])))
         elif nd["kind"] == "Flaky":
-            lines.append("%s = Flaky(L = %s)" % (nd["name"], _fmt(nd["L"])))
+            lines.append("%s = Flaky(L = %s%s)" % (nd["name"], _fmt(nd["L"]), ', Metadata = [DisplayName: "flaky input"]' if len(nd["L"]) % 2 == 0 else ""))
         elif nd["kind"] == "Num":
             lines.append("%s = Num(V = %s)" % (nd["name"], nd["V"]))
         elif nd["kind"] == "TypedOp":
@@ -331,6 +331,7 @@ def check_log(ctx, log, names, tag, case_detail):
     """Exactly-once + life-cycle automaton + finished-before-use over one event log. Returns {name: returned value}."""
     state = {}
     returned = {}
+    produced_digest = {}
     for e in log:
         k = e["k"]
         if k == "exec_enter":
@@ -346,6 +347,7 @@ def check_log(ctx, log, names, tag, case_detail):
                 return None
             state[e["name"]] = "FINISHED"
             returned[e["name"]] = e["value"]
+            produced_digest[e["name"]] = e.get("vdigest")
         elif k == "exec_raise":
             state[e["name"]] = "FAILED"
         elif k == "read_done":
@@ -354,6 +356,10 @@ def check_log(ctx, log, names, tag, case_detail):
             if tgt in names:
                 if state.get(tgt) != "FINISHED":
                     ctx.fail("%s:read-before-finished" % tag, dict(case_detail, reader=e["reader"], target=tgt, target_state=state.get(tgt, "NEW")))
+                    return None
+                if e.get("vdigest") is not None and produced_digest.get(tgt) is not None and e["vdigest"] != produced_digest[tgt]:
+                    # the array handed to this reader is not what the producer returned when it finished (altered in between)
+                    ctx.fail("%s:reader-fed-a-result-altered-after-it-was-produced" % tag, dict(case_detail, reader=e["reader"], target=tgt))
                     return None
                 if not _veq(e["value"], returned.get(tgt)):
                     ctx.fail("%s:reader-fed-wrong-value" % tag, dict(case_detail, reader=e["reader"], target=tgt, got=repr(e["value"])[:200], want=repr(returned.get(tgt))[:200]))
@@ -675,6 +681,8 @@ def run_retry(ctx, case):
     ctx.count("retry_programs")
     prog = Program.from_source(text, libraries=("vprobe",))
     vprobe.FLAKY["fail"] = True
+    vprobe.FLAKY["exc"] = [IOError, TypeError, ValueError, KeyError][len(text) % 4]
+    del vprobe.EXEC_LOG[:]
     log1 = trace.start()
     trace.attach(prog)
     err = None
@@ -688,6 +696,11 @@ def run_retry(ctx, case):
     from mpilot.exceptions import MPilotError
     if err is None or not isinstance(err, MPilotError):
         ctx.fail("retry:failing-command-not-reported", dict(detail, error=repr(err)[:200]))
+        return
+    flaky = [nd["name"] for nd in nodes if nd["kind"] == "Flaky"]
+    entered = {n: vprobe.EXEC_LOG.count(n) for n in flaky if vprobe.EXEC_LOG.count(n) != 1 and n in vprobe.EXEC_LOG}
+    if entered:
+        ctx.fail("retry:failing-command-entered-more-than-once-in-one-run", dict(detail, executions=entered, raised=vprobe.FLAKY["exc"].__name__))
         return
     log2 = trace.start()
     try:
